@@ -84,8 +84,18 @@ structure Flow where
   expires : Nat        -- last pass + the timeout in force then
   lastPass : Nat
   incoming : Bool      -- direction of the rule-allowed packet that created it
-  epoch : Nat          -- number of reloads seen when it was last validated against the rules
+  epoch : Nat          -- number of effective reloads seen when it was last validated against the rules
   deriving Repr
+
+/-- what a reload is given: `NewFirewallFromConfig`'s inputs. -/
+structure LoadCfg where
+  dlca : Bool
+  tcp : Nat
+  udp : Nat
+  dflt : Nat
+  nonce : Nat
+  rules : List String     -- the staged rule lines, verbatim
+  deriving DecidableEq
 
 /-- engine state: the model (`sys`) and the spec's own flat view (rule list, flows). -/
 structure St where
@@ -96,8 +106,11 @@ structure St where
   pool : Pool := []
   peers : List (String × Cert) := []
   flows : List Flow := []          -- spec: tracked tuples
-  epoch : Nat := 0                 -- spec: reloads so far
-  staged : List Rule := []         -- rules of the next reload
+  epoch : Nat := 0                 -- spec: effective reloads so far
+  staged : List (String × Rule) := []   -- rules of the next reload (line text, parsed)
+  lastLoad : Option LoadCfg := none     -- the firewall section of the config as last loaded
+  cachePeriod : Nat := 0
+  wrapLost : List Flow := []       -- spec: flows that were live when a version wrap reset conntrack (F16)
 
 def St.peer (s : St) (id : String) : Option Cert := aget sameStr s.peers id
 
@@ -118,5 +131,58 @@ def addrVerdict (my peer : Cert) (p : Packet) (impl : String) : String :=
   else if !Spec.Fw.remoteOK my peer p.remoteAddr then "bad c17-remote-addr-not-certified"
   else if !Spec.Fw.localAddrOK my p.localAddr then "bad c17-local-addr-not-own"
   else "ok"
+
+def ruleTag (r : Rule) : String :=
+  (if r.caName != "" || r.caSha != "" then "ca" else "noca") ++ "/" ++
+  (if isAny r.groups r.host r.cidr then "anysel" else "sel")
+
+/-- ops common to both engines: reset / ca / peer / rule / match / clear / sleep. -/
+def stepSetup (s : St) (args : List String) (impl : String) : Option (St × Out) :=
+  match args with
+  | "reset" :: dlca :: tcp :: udp :: dflt :: cache :: cert =>
+    match parseCert cert, natArg tcp, natArg udp, natArg dflt, natArg cache with
+    | some my, some tcp, some udp, some dflt, some cache =>
+      let d := dlca == "1"
+      some ({ my := my, dlca := d, sys := Sys.new (Fw.new my d tcp udp dflt) cache, cachePeriod := cache },
+            { model := "ok", tag := "triv:reset" })
+    | _, _, _, _, _ => some (s, badOp)
+  | ["ca", fp, name] =>
+    some ({ s with pool := aset sameStr s.pool (strTok fp) (strTok name) }, { model := "ok", tag := "triv:ca" })
+  | "peer" :: id :: cert =>
+    match parseCert cert with
+    | some c =>
+      let m := if (buildNetworks (myNetsOf s.my) c).isNone then "simple" else "table"
+      some ({ s with peers := aset sameStr s.peers id c }, { model := m, tag := "triv:peer:" ++ m })
+    | none => some (s, badOp)
+  | "rule" :: rule =>
+    match parseRule rule with
+    | some r =>
+      let want := if Spec.Fw.ruleValid r then "ok"
+        else if r.proto = 0 ∨ r.proto = 6 ∨ r.proto = 17 ∨ r.proto = 1 ∨ r.proto = 58 then "err:ports" else "err:proto"
+      match s.sys.fw.addRule r with
+      | .ok fw =>
+        some ({ s with sys := { s.sys with fw := fw }, rules := s.rules ++ [r] },
+              { model := "ok", verdict := expect "c16-rule-accept" impl want, tag := "rule:" ++ ruleTag r })
+      | .error e =>
+        some ({ s with rules := s.rules ++ [r] },
+              { model := showAddErr e, verdict := expect "c16-rule-accept" impl want, tag := "rule:" ++ showAddErr e })
+    | none => some (s, badOp)
+  | "match" :: id :: dir :: pkt =>
+    match s.peer id, dirTok dir, parsePacket pkt with
+    | some c, some inc, some p =>
+      let pr : Peer := { cert := c, pool := s.pool }
+      let m := (s.sys.fw.table inc).matches p inc pr
+      let want := Spec.Fw.allow s.cfg s.rules p inc pr
+      some (s, { model := boolStr m, verdict := expect "c16-table-match" impl (boolStr want),
+                 tag := "match:" ++ boolStr want })
+    | _, _, _ => some (s, badOp)
+  | ["clear"] =>
+    some ({ s with sys := { s.sys with ct := { s.sys.ct with conns := [] } }, flows := [], wrapLost := [] },
+          { model := "ok", tag := "triv:clear" })
+  | ["sleep", d] =>
+    match natArg d with
+    | some d => some ({ s with sys := s.sys.sleep d }, { model := "ok", tag := "triv:sleep" })
+    | none => some (s, badOp)
+  | _ => none
 
 end Nebula.Driver.Fw
